@@ -47,7 +47,7 @@
 EXTENDS Integers, Sequences, FiniteSets, TLC, Json
 
 CONSTANTS Variant,   \* "ok" | "enable_late" | "nonatomic_select" | "no_loop"
-                     \*      | "wait_last_only" | "leak_writer"
+                     \*      | "wait_last_only" | "leak_writer" | "leak_reader"
           Scripts,   \* set of script ids explored (see Script)
           MaxP       \* bound on the number of processes ever created
 
@@ -65,6 +65,8 @@ Pr(t)      == [k |-> "pr", t |-> t, b |-> FALSE]    \* probe t       (records $?
 PrB(t)     == [k |-> "pr", t |-> t, b |-> TRUE]     \* probe t $!    (records $? and $!)
 Rd         == [k |-> "rd"]                          \* sink   (reads stdin to EOF)
 Wr(safe)   == [k |-> "wr", safe |-> safe]           \* echo x (safe: its reader reads to EOF)
+Em(dr)     == [k |-> "em", dr |-> dr]               \* emit 3000: writes more than a pipe holds
+                                                    \* (dr: its reader drains the pipe)
 Sub(b)     == [k |-> "sub", b |-> b]                \* ( b )
 Cs(b)      == [k |-> "cs", b |-> b]                 \* x=$( b )
 Bg(b, v)   == [k |-> "bg", b |-> b, v |-> v]        \* { b; } &  [pv=$!]
@@ -76,7 +78,8 @@ S1(x) == <<St(x)>>
 \* Generated scripts: every sequence (of a given length) over these commands,
 \* each followed by a probe.  p1, p2 start as the unknown pid 999.
 GenAtoms == << St(3), Sub(S1(4)), Cs(S1(6)), Bg(S1(5), 1), Bg(S1(0), 2), Wt(<<1>>), Wt(<<2, 1>>), Wt(<<>>),
-               Pipe(<<S1(3), S1(0)>>), Pipe(<< S1(4), <<Rd>> >>) >>
+               Pipe(<<S1(3), S1(0)>>), Pipe(<< S1(4), <<Rd>> >>),
+               Pipe(<< <<Em(FALSE)>>, S1(5), <<Rd>> >>) >>
 RECURSIVE GenBody(_, _)
 GenBody(a, i) == IF i > Len(a) THEN <<>> ELSE <<GenAtoms[a[i]], Pr(i)>> \o GenBody(a, i + 1)
 
@@ -126,6 +129,13 @@ Script(id) ==
           [] id.f = "bgsink" -> <<Bg(S1(a[1]), 1), Pipe(<< S1(a[2]), <<Rd>> >>), Pr(1), Wt(<<1, 0>>), Pr(2)>>
           [] id.f = "cswait" -> <<Bg(S1(a[1]), 1), Cs(<<Wt(<<1>>), Pr(1), Bg(S1(a[2]), 2), Wt(<<2>>)>>), Pr(2),
                                   Wt(<<1>>), Pr(3)>>
+          \* a producer of more than the pipe capacity; consumers that leave early
+          [] id.f = "big2"   -> <<Pipe(<< <<Em(FALSE)>>, S1(a[1]) >>), Pr(1)>>
+          [] id.f = "big3a"  -> <<Pipe(<< <<Em(FALSE)>>, S1(a[1]), <<Rd>> >>), Pr(1)>>
+          [] id.f = "big3b"  -> <<Pipe(<< <<Em(FALSE)>>, S1(a[1]), S1(a[2]) >>), Pr(1)>>
+          [] id.f = "big3c"  -> <<Pipe(<< <<Em(TRUE)>>, <<Rd>>, S1(a[1]) >>), Pr(1)>>
+          [] id.f = "big3d"  -> <<Pipe(<< <<Em(TRUE)>>, <<St(a[1]), Rd>>, <<Rd>> >>), Pr(1)>>
+          [] id.f = "big4"   -> <<Pipe(<< <<Em(FALSE)>>, S1(a[1]), S1(a[2]), <<Rd>> >>), Pr(1)>>
           \* generated: GenAtoms[a[1]]; probe 1; GenAtoms[a[2]]; probe 2; ...
           [] id.f = "gen"    -> GenBody(a, 1)
   IN [id |-> id, pf |-> id.pf, body |-> body]
@@ -157,13 +167,17 @@ CatPipesEof ==
   \cup Ids("sink3", {<<4>>}, {FALSE}) \cup Ids("cseof", {<<3, 6>>}, {FALSE})
   \cup Ids("race", {<<0>>}, B2)
 
-CatAll == CatPipes \cup CatSimple \cup CatAsync \cup CatNested \cup CatPipesEof
+CatBigWriter ==
+  Ids("big2", {<<0>>}, B2) \cup Ids("big3a", {<<0>>, <<5>>}, B2) \cup Ids("big3b", {<<0, 0>>, <<5, 4>>}, B2)
+  \cup Ids("big3c", {<<4>>}, B2) \cup Ids("big3d", {<<3>>}, B2)
+CatAll == CatPipes \cup CatSimple \cup CatAsync \cup CatNested \cup CatPipesEof \cup CatBigWriter
 CatBig ==
   Ids("pipe4", {<<3, 0, 4, 0>>}, B2) \cup Ids("bg3", {<<3, 4, 5>>}, {FALSE})
   \cup Ids("subp3", {<<3, 4, 0>>}, B2) \cup Ids("csp3", {<<0, 4, 0>>}, B2)
   \cup Ids("bgpp", {<<3, 0, 4, 0>>}, B2) \cup Ids("psub3", {<<3, 4, 0>>}, B2)
   \cup Ids("nbgw", {<<3, 4>>}, {FALSE}) \cup Ids("bgsub", {<<3, 4, 5>>}, {FALSE})
   \cup Ids("bgsink", {<<3, 4>>}, B2) \cup Ids("cswait", {<<3, 4>>}, {FALSE})
+  \cup Ids("big4", {<<0, 5>>, <<5, 0>>}, B2)
 GenIx == 1 .. Len(GenAtoms)
 CatGen2 == Ids("gen", {<<i, j>> : i, j \in GenIx}, {TRUE})
 CatGen3 == Ids("gen", {<<i, j, k>> : i, j, k \in GenIx}, {TRUE})
@@ -175,6 +189,7 @@ CatQuick == CatAll \cup Ids("pipe4", {<<3, 0, 4, 0>>}, {TRUE}) \cup Ids("bg3", {
 CatNegWait == Ids("sub", {<<5>>}, {FALSE}) \cup Ids("bgfg", {<<3, 4>>}, {FALSE})
 CatNegPipe == Ids("pipe2", {<<3, 4>>}, {FALSE})
 CatNegLeak == Ids("sink1", {<<3>>}, {FALSE})
+CatNegLeakR == Ids("big3a", {<<0>>}, {FALSE})
 
 -----------------------------------------------------------------------------
 (* Concrete syntax (what the harness feeds to the real shell)              *)
@@ -184,7 +199,7 @@ Brace(b) == "{ " \o TxtBody(b) \o (IF EndsBg(b) THEN " }" ELSE "; }")
 TxtOps(ts) == IF ts = <<>> THEN ""
               ELSE (IF Head(ts) = 0 THEN " 999" ELSE " $p" \o ToString(Head(ts))) \o TxtOps(Tail(ts))
 TxtStages(cs) ==
-  LET one == IF Len(Head(cs)) = 1 /\ Head(cs)[1].k \in {"st", "rd", "wr", "sub", "cs"}
+  LET one == IF Len(Head(cs)) = 1 /\ Head(cs)[1].k \in {"st", "rd", "wr", "em", "sub", "cs"}
              THEN TxtCmd(Head(cs)[1]) ELSE Brace(Head(cs))
   IN IF Len(cs) = 1 THEN one ELSE one \o " | " \o TxtStages(Tail(cs))
 TxtCmd(c) ==
@@ -192,6 +207,7 @@ TxtCmd(c) ==
     [] c.k = "pr"   -> "probe " \o ToString(c.t) \o (IF c.b THEN " $!" ELSE "")
     [] c.k = "rd"   -> "sink"
     [] c.k = "wr"   -> "echo x"
+    [] c.k = "em"   -> "emit 3000"
     [] c.k = "sub"  -> "( " \o TxtBody(c.b) \o " )"
     [] c.k = "cs"   -> "x=$( " \o TxtBody(c.b) \o " )"
     [] c.k = "bg"   -> Brace(c.b) \o " &" \o (IF c.v = 0 THEN "" ELSE " p" \o ToString(c.v) \o "=$!")
@@ -241,6 +257,7 @@ DenCmd(c, path, e) ==
        [] c.k = "pr" -> [none EXCEPT !.pr = << <<c.t, e.q, bp>> >>, !.gl = << <<path, c.t, e.q, bp>> >>]
        [] c.k = "rd" -> [none EXCEPT !.e.q = 0]
        [] c.k = "wr" -> [none EXCEPT !.e.q = IF c.safe THEN 0 ELSE ANY]
+       [] c.k = "em" -> [none EXCEPT !.e.q = IF c.dr THEN 0 ELSE NZ]
        [] c.k \in {"sub", "cs"} ->
             LET r == DenChild(c.b, Append(path, e.nf + 1), e)
             IN [e |-> [e EXCEPT !.q = r.xs, !.nf = @ + 1], pr |-> <<>>, procs |-> r.procs, gl |-> r.gl]
@@ -342,6 +359,17 @@ HW(T, x)        == (IF T.out[x] # 0 THEN {T.out[x]} ELSE {}) \cup T.xw[x]
 HR(T, x)        == (IF T.inp[x] # 0 THEN {T.inp[x]} ELSE {}) \cup T.xr[x]
 Eof(T, pi)      == pi = 0 \/ \A x \in Pids : T.st[x] = "Run" => pi \notin HW(T, x)
 HasReader(T, pi) == \E x \in Pids : T.st[x] = "Run" /\ pi \in HR(T, x)
+\* some process reads pi to EOF as the next thing it can block on
+Draining(T, pi) ==
+  \E x \in Pids :
+     /\ T.st[x] = "Run" /\ T.inp[x] = pi /\ T.ph[x].n = "cmd"
+     /\ \E i \in T.pc[x] .. Len(T.body[x]) :
+           /\ T.body[x][i].k = "rd"
+           /\ \A j \in T.pc[x] .. (i - 1) : T.body[x][j].k = "st"
+\* A write of more than the pipe capacity completes when a reader drains the
+\* pipe, or fails (EPIPE / SIGPIPE) when no read end is left; while a read end
+\* is held by processes that do not read, the writer stays blocked.
+EmReady(T, p) == T.out[p] = 0 \/ ~HasReader(T, T.out[p]) \/ Draining(T, T.out[p])
 Kids(T, p)      == {c \in Pids : T.par[c] = p}
 ChangedKids(T, p) == {c \in Kids(T, p) : T.st[c] = "Zombie"}     \* state_has_changed
 UnreapedKids(T, p) == {c \in Kids(T, p) : T.st[c] \in {"Run", "Zombie"}}
@@ -397,6 +425,7 @@ Kind(T, p) ==
          ELSE LET c == Cmd(T, p) IN
               (CASE c.k = "pr" -> "probe"
                  [] c.k = "rd" -> IF Eof(T, T.inp[p]) THEN "silent" ELSE "blocked"
+                 [] c.k = "em" -> IF EmReady(T, p) THEN "silent" ELSE "blocked"
                  [] c.k \in {"sub", "cs", "bg"} -> "fork"
                  [] OTHER -> "silent")
     [] h.n = "pf" -> "fork"
@@ -426,6 +455,7 @@ Apply(T, p, ch) ==
                             !.glog = IF T.det THEN Append(@, <<T.path[p], c.t, T.q[p], bp>>) ELSE @], p)
          [] c.k = "rd" -> Adv([T EXCEPT !.q[p] = 0], p)
          [] c.k = "wr" -> Adv([T EXCEPT !.q[p] = IF T.out[p] = 0 \/ HasReader(T, T.out[p]) THEN 0 ELSE NZ], p)
+         [] c.k = "em" -> Adv([T EXCEPT !.q[p] = IF T.out[p] = 0 \/ HasReader(T, T.out[p]) THEN 0 ELSE NZ], p)
          [] c.k = "sub" ->
               LET U == Fork(T, p, c.b, "sub", T.inp[p], T.out[p], T.xr[p], T.xw[p])
               IN [U EXCEPT !.ph[p] = [Idle EXCEPT !.n = "en", !.m = "fg", !.c = NewPid(T)]]
@@ -459,7 +489,8 @@ Apply(T, p, ch) ==
           kids2 == Append(h.kids, cpid)
           first == IF Variant = "wait_last_only" THEN n ELSE 1
       IN [U EXCEPT !.np = IF k < n THEN pi ELSE @,
-                   !.xr[p] = (@ \ {h.pp}) \cup (IF k < n THEN {pi} ELSE {}),
+                   !.xr[p] = (IF Variant = "leak_reader" /\ k < n THEN @ ELSE @ \ {h.pp})
+                             \cup (IF k < n THEN {pi} ELSE {}),
                    !.xw[p] = IF Variant = "leak_writer" /\ k < n THEN @ \cup {pi} ELSE @,
                    !.ph[p] = IF k < n THEN [h EXCEPT !.k = k + 1, !.pp = pi, !.kids = kids2]
                              ELSE [Idle EXCEPT !.n = "en", !.m = "fg", !.k = first, !.c = kids2[first],
@@ -533,6 +564,7 @@ ASimple(p)    == Is(p, {"st", "pipe", "wait"}) /\ Step(p)
 AProbe(p)     == Is(p, {"pr"}) /\ Step(p)
 ARead(p)      == Is(p, {"rd"}) /\ Step(p)
 AWrite(p)     == Is(p, {"wr"}) /\ Step(p)
+ABigWrite(p)  == Is(p, {"em"}) /\ Step(p)
 AForkSub(p)   == Is(p, {"sub"}) /\ Step(p)
 AForkCs(p)    == Is(p, {"cs"}) /\ Step(p)
 AForkBg(p)    == Is(p, {"bg"}) /\ Step(p)
@@ -551,7 +583,7 @@ Done          == Terminated(S) /\ UNCHANGED S
 
 Next ==
   \/ \E p \in Pids :
-       \/ ASimple(p) \/ AProbe(p) \/ ARead(p) \/ AWrite(p) \/ AForkSub(p) \/ AForkCs(p) \/ AForkBg(p)
+       \/ ASimple(p) \/ AProbe(p) \/ ARead(p) \/ AWrite(p) \/ ABigWrite(p) \/ AForkSub(p) \/ AForkCs(p) \/ AForkBg(p)
        \/ AForkStage(p) \/ AReadEof(p) \/ AEnable(p) \/ APollFg(p) \/ AReapFg(p) \/ APollAny(p)
        \/ AReapAny(p) \/ AWake(p) \/ AWaitChk(p) \/ AExit(p)
   \/ \E p, c \in Pids : ACollect(p, c)
